@@ -12,12 +12,12 @@ import (
 // Native Node runs (real ESM/CJS loaders) through oracle/runner.mjs.
 
 type nodeJob struct {
-	ID      string `json:"id"`
-	File    string `json:"file"`
-	Mode    string `json:"mode"` // import | require | script | import-seq
+	ID      string   `json:"id"`
+	File    string   `json:"file"`
+	Mode    string   `json:"mode"` // import | require | script | import-seq
 	Files   []string `json:"files,omitempty"`
-	Global  string `json:"global,omitempty"`
-	WaitFor string `json:"waitFor,omitempty"` // the run is over when an event with this prefix has been logged
+	Global  string   `json:"global,omitempty"`
+	WaitFor string   `json:"waitFor,omitempty"` // the run is over when an event with this prefix has been logged
 }
 
 type nodeResult struct {
